@@ -4,6 +4,7 @@
 -/
 import SV.ShardProofs
 import SV.Persist.Proofs
+import SV.Persist.ShardedProofs
 namespace SV.Props.C19
 open SV SV.Shard
 
@@ -45,5 +46,15 @@ theorem sharded_range_is_union (s : Persist.Sharded) : s.range = s.shards.flatMa
 example : computeId 5 [0xff, 0xff, 0x07] = 3 := by decide
 example : validCount 300 = true ∧ computeId 300 (beKey (bytesNeeded 300) 299) = 299 := by decide
 example : bytesNeeded 300 = 2 ∧ computeId 300 ([1, 2, 3] ++ [1, 2]) = computeId 300 ([] ++ [1, 2]) := by decide
+
+/-- whole histories: the sharded persister behaves as a single map, and after a flush RangeKeys visits the union of all shards —
+    exactly the logical map, each key once (every key lives only in the shard its id routes to) -/
+theorem sharded_history_is_one_map (n maxBatch : Nat) (hn : 2 ≤ n) (hm : 1 ≤ maxBatch) (ops : List Persist.Op) (k : Bytes) :
+    (ops.foldl Persist.Sharded.step (Persist.Sharded.init n maxBatch)).get Persist.Variant.current k
+      = (ops.foldl Persist.specStep (fun _ => none)) k := Persist.sharded_run_refines_map n maxBatch hn hm ops k
+theorem sharded_range_visits_the_union_once (n maxBatch : Nat) (hn : 2 ≤ n) (hm : 1 ≤ maxBatch) (ops : List Persist.Op) :
+    (((ops ++ [Persist.Op.tick]).foldl Persist.Sharded.step (Persist.Sharded.init n maxBatch)).range.map (·.1)).Nodup ∧
+    ∀ k, alookup k ((ops ++ [Persist.Op.tick]).foldl Persist.Sharded.step (Persist.Sharded.init n maxBatch)).range
+      = (ops.foldl Persist.specStep (fun _ => none)) k := Persist.sharded_run_range n maxBatch hn hm ops
 
 end SV.Props.C19
